@@ -544,7 +544,7 @@ def run(rep, tier, seed, only=None):
         rep.add(lean_lemmas("C01", ["plus_prescription_restricted"], tier))
     rep.assume(
         "A-quad: scipy.integrate.quad returns the integral of the integrand it is given over the interval it is given (accuracy / subdivision limits not covered)",
-        "A-eko: evaluate_x / log_evaluate_x(u, basis.areas_representation) is the value of that basis function at u; its support is the union of its areas (sorted borders); bounded stand-in for continuity / partition of unity: every x on six grids (eko's real evaluate_x run symbolically)",
+        "A-eko: evaluate_x / log_evaluate_x(u, basis.areas_representation) is the value of that basis function at u; its support is the union of its areas (sorted borders); stand-ins (labelled bounded) for continuity / partition of unity / p_j(x_k) = delta_jk: eko's real constructors and evaluate_x run on SYMBOLIC nodes and x (any node positions, degree 1..4, up to degree+3 nodes, exact identities by the normaliser) and on six concrete grids (every x, z3)",
         "L-plus: for C = reg + [sing]_+ + delta_c delta(1-z) with loc(x) = delta_c - int_0^x sing (C03), the distribution acting on a test function supported in (x,1] is int_x^1 reg g + int_x^1 sing (g - g(1)) + loc(x) g(1) -- machine-checked by Lean 4 + Mathlib in the thorough tier (lemmas/Lemmas.lean, theorem plus_prescription_restricted); an assumption in the quick tier",
         "loop lemmas by AST (append-only accumulators / cells written once / += accumulation) lift the instantiations at 0..3 elements to every length",
         "the factor x of the left-hand side is the convolution point of the scheme (C09 / sec_convolution_point)",
